@@ -665,10 +665,10 @@ func sanitize(b []byte) []byte {
 	return out
 }
 
-const nDepKinds = 12
+const nDepKinds = 13
 
 var depKindNames = [nDepKinds]string{"existence", "absence_as_message", "absence_ops_for_value", "later_state", "other_value", "other_key", "no_multistore_op",
-	"forged_state_honest_header", "forged_state_weak_header", "replay", "existence_on_switch_header", "low_height_header"}
+	"forged_state_honest_header", "forged_state_weak_header", "replay", "existence_on_switch_header", "low_height_header", "equal_height_switch_header"}
 
 func (x *exec) stepDep(st kernel.Step) {
 	c := x.c
@@ -764,6 +764,32 @@ func (x *exec) stepDep(st kernel.Step) {
 		g.nextHash = g.valsHash
 		g.appHash = c.app.appHash(m.idx + 1)
 		a, _ = x.mkFaulty(&g, trusted, false, 0, sel, m.idx+1)
+	case "equal_height_switch_header":
+		// a header exactly AT the tracked height (sel odd: one below) whose validator set is the
+		// trusted next set B, validly signed by B, announcing ANOTHER next set C, committing a
+		// state that really contains the message: the deposit may pass, the record must not move
+		if len(x.pending) > 0 && !x.flush() { // the attack needs the real tracked height
+			return
+		}
+		T = x.cursor.height
+		trusted, okT := c.setsByHash[hex.EncodeToString(x.cursor.nextHash)]
+		var ex, ok bool
+		ops, ex, ok = c.app.prove(m.idx+1, store, m.key)
+		lh := T - abs64(sel)%2
+		if !okT || !ok || !ex || lh < 1 {
+			x.run.Logf("dep equal_height_switch_header: not applicable, skipped")
+			return
+		}
+		lf, _, _ := x.fieldsAt(lh)
+		g := *lf
+		g.valsHash = c.b.setHash(trusted, g.version)
+		g.nextHash = c.b.setHash(x.attackerSet(2), g.version)
+		g.appHash = c.app.appHash(m.idx + 1)
+		a, _ = x.mkFaulty(&g, trusted, false, abs64(st.Arg(3))%2, sel, m.idx+1)
+		if lh == T {
+			x.run.Probe("equal_height_header_with_other_next_set_submitted")
+			x.run.Probe("equal_height_header_with_other_next_set_submitted:" + c.fam.name)
+		}
 	case "absence_as_message":
 		// no key path; the "message" is a byte string that is at the same time a key path
 		// "/store/key" of an ABSENT key and a well-formed MakeTxParam serialization
@@ -864,6 +890,33 @@ func (x *exec) stepDep(st kernel.Step) {
 	p := &pendTx{kind: "dep", label: kind, arts: []*artefact{a}, dep: d, ops: ops, kp: kp, height: height}
 	p.tx = x.depTx(a, height, ops, kp, d.value)
 	x.queueDep(p)
+	if kind == "equal_height_switch_header" {
+		// follow-up: one height further, a header signed ONLY by the set announced there
+		var m2 *simMsg
+		for _, q := range c.msgs {
+			if q != m && !q.accepted {
+				m2 = q
+			}
+		}
+		if m2 == nil {
+			m2 = m
+		}
+		ops2, ex2, ok2 := c.app.prove(m2.idx+1, store, m2.key)
+		if !ok2 || !ex2 {
+			return
+		}
+		cset := x.attackerSet(2)
+		f2, _, _ := x.fieldsAt(a.f.height + 1)
+		g2 := *f2
+		g2.valsHash = c.b.setHash(cset, g2.version)
+		g2.nextHash = c.b.setHash(x.attackerSet(3), g2.version)
+		g2.appHash = c.app.appHash(m2.idx + 1)
+		a2, _ := x.mkFaulty(&g2, cset, false, 0, sel, m2.idx+1)
+		d2 := &depInfo{kind: "announced_set_after_equal_height", msg: m2, value: m2.raw, claimStore: store, claimKey: m2.key}
+		p2 := &pendTx{kind: "dep", label: d2.kind, arts: []*artefact{a2}, dep: d2, ops: ops2, kp: keyPath(store, m2.key), height: a2.f.height}
+		p2.tx = x.depTx(a2, p2.height, ops2, p2.kp, d2.value)
+		x.queueDep(p2)
+	}
 }
 
 func (x *exec) queueDep(p *pendTx) {
@@ -1196,6 +1249,9 @@ func execC30(run *kernel.Run) {
 			}
 			run.Logf("restart node %d: record kept", st.Arg(0))
 		}
+		if run.Failed() {
+			return
+		}
 		if len(x.pending) >= 3 {
 			if !x.flush() {
 				return
@@ -1261,6 +1317,9 @@ func genC30(rng *kernel.RNG, idx int, tier string) *kernel.Plan {
 			kind := int64(0)
 			if !rng.Chance(honestBias) {
 				kind = int64(1 + rng.Intn(nDepKinds-1))
+				if rng.Chance(0.12) {
+					kind = 12 // header at the tracked height announcing another next set
+				}
 			} else if rng.Chance(0.2) {
 				kind = 10
 			}
@@ -1300,7 +1359,7 @@ func genC30(rng *kernel.RNG, idx int, tier string) *kernel.Plan {
 }
 
 func init() {
-	req := []string{"honest_switch_accepted", "honest_deposit_accepted", "exact_two_thirds_rejected", "faulty_header_rejected", "faulty_deposit_rejected"}
+	req := []string{"honest_switch_accepted", "honest_deposit_accepted", "exact_two_thirds_rejected", "faulty_header_rejected", "faulty_deposit_rejected", "equal_height_header_with_other_next_set_submitted"}
 	for _, f := range families {
 		req = append(req, "router:"+f.name, "honest_switch_accepted:"+f.name)
 		if f.hasDeposit {
